@@ -376,10 +376,12 @@ class Histogram1D(ObjectWithBinning, HistogramBase):
         if ixbin is None:
             self.overflow = np.nan
             self.underflow = np.nan
-        elif ixbin == -1 and self.keep_missed:
-            self.underflow += weight
-        elif ixbin == self.bin_count and self.keep_missed:
-            self.overflow += weight
+        elif ixbin == -1:
+            if self.keep_missed:
+                self.underflow += weight
+        elif ixbin == self.bin_count:
+            if self.keep_missed:
+                self.overflow += weight
         else:
             self._frequencies[ixbin] += weight
             self._errors2[ixbin] += weight**2
